@@ -6,8 +6,20 @@ property's anchors, plus race-detector runs of the drivers; not a
 happens-before proof of the whole program.
 -/
 import Neutrino.Model.Ownership
+import Neutrino.Gen.AccessNames
 namespace Neutrino.Lockset
 open Neutrino.Gen.AccessTable
+
+/-- display: the stable (role) name of an id and, where it differs, the Go identifier it stands for today -/
+def shown (i : Nat) : String :=
+  let n := nameOf i
+  match Neutrino.Gen.AccessNames.goNames.find? (·.1 == n) with
+  | some p => n ++ " (= " ++ p.2 ++ " in the source)"
+  | none => n
+
+def shownPair (r s : Access) : String :=
+  shown r.field ++ ": " ++ (if r.write then "write" else "read") ++ " in " ++ shown r.fn ++ " (" ++ r.file ++ ":" ++ toString r.line ++ ") | " ++
+  (if s.write then "write" else "read") ++ " in " ++ shown s.fn ++ " (" ++ s.file ++ ":" ++ toString s.line ++ ") share no lock"
 
 def racyPairs : List (Access × Access) :=
   rows.flatMap (fun r => (rows.filter (fun s => !pairOk tables r s)).map (fun s => (r, s)))
@@ -17,19 +29,19 @@ def unexplained : List (Access × Access) :=
 
 /-- Diagnostics only: name the offending pairs / entries in the build log when a theorem below is about to fail. -/
 def diagnostics : List String :=
-  ((unexplained.filter (fun p => p.1.write || !p.2.write)).map (fun p => "C18 unsynchronised pair: " ++ describePair p.1 p.2)) ++
+  ((unexplained.filter (fun p => p.1.write || !p.2.write)).map (fun p => "C18 unsynchronised pair: " ++ shownPair p.1 p.2)) ++
   ((allCallerHolds.filter (fun e => !callerHoldsOk tables calls e)).map (fun e =>
-    "C18 callerHolds entry no longer justified by the call rows: " ++ nameOf e.fn ++ " under " ++ nameOf e.lock)) ++
+    "C18 callerHolds entry no longer justified by the call rows: " ++ shown e.fn ++ " under " ++ shown e.lock)) ++
   ((calls.filter (reentrant tables acquires)).map (fun c =>
-    "C18 re-entrant lock: " ++ nameOf c.caller ++ " calls " ++ nameOf c.callee ++ " (line " ++ toString c.line ++ ") holding a mutex the callee locks again")) ++
+    "C18 re-entrant lock: " ++ shown c.caller ++ " calls " ++ shown c.callee ++ " (line " ++ toString c.line ++ ") holding a mutex the callee locks again")) ++
   ((unguardedAccesses.filter (fun u => ordered.any (fun k => k.field == u.field && (k.fnA == u.fn || k.fnB == u.fn)))).map (fun u =>
-    "C18 " ++ nameOf u.field ++ " is accessed in " ++ nameOf u.fn ++ " (line " ++ toString u.line ++
+    "C18 " ++ shown u.field ++ " is accessed in " ++ shown u.fn ++ " (line " ++ toString u.line ++
     ") on a path an ERROR verdict of the query can take: the callback that writes it may still be running (the `ordered` entry holds for the nil verdict only)")) ++
   (if callbacks == reviewedCallbacks then [] else
-    ["C18 work-manager callbacks changed: extracted [" ++ ", ".intercalate (callbacks.map (fun c => nameOf c.fn ++ (if c.multi then " (multi)" else " (single)"))) ++ "]"]) ++
-  (foreignUnlocks.map (fun u => "C18 " ++ nameOf u.fn ++ " unlocks " ++ nameOf u.lock ++ " without having locked it: its callers' lock regions are opened")) ++
+    ["C18 work-manager callbacks changed: extracted [" ++ ", ".intercalate (callbacks.map (fun c => shown c.fn ++ (if c.multi then " (multi)" else " (single)"))) ++ "]"]) ++
+  (foreignUnlocks.map (fun u => "C18 " ++ shown u.fn ++ " unlocks " ++ shown u.lock ++ " without having locked it: its callers' lock regions are opened")) ++
   ((knownRacy.filter (fun k => !racyPairs.any (fun p => p.1.field == k.field && p.1.fn == k.fnA && (k.anyB || p.2.fn == k.fnB)))).map (fun k =>
-    "C18 stale knownRacy entry: " ++ nameOf k.field ++ " " ++ nameOf k.fnA ++ " | " ++ nameOf k.fnB))
+    "C18 stale knownRacy entry: " ++ shown k.field ++ " " ++ shown k.fnA ++ " | " ++ shown k.fnB))
 
 #eval show IO Unit from do
   unless diagnostics.isEmpty do
